@@ -608,6 +608,26 @@ pub fn structured_families(tier: Tier) -> Vec<(String, usize, Vec<f64>)> {
         }
     }
     res.push(("wilson".into(), 4, vec![5., 7., 6., 5., 7., 10., 8., 7., 6., 8., 10., 9., 5., 7., 9., 10.]));
+    // near-dependent rows (not a grading): L matrices of bananas whose shared edge dominates, L = diag(a_i) + c * ones
+    for n in 2..=5usize {
+        for c in [1e3, 1e6, 1e8, 1e9, 3e9] {
+            let mut d = vec![c; n * n];
+            for i in 0..n {
+                d[i * n + i] = c + 1.0 + 0.25 * i as f64;
+            }
+            res.push((format!("shared-edge-dominance c={c:e}"), n, d));
+        }
+    }
+    // scaled copies of every family member: well-conditioned matrices with very small / very large determinants
+    let base: Vec<(String, usize, Vec<f64>)> = res.clone();
+    for (name, n, d) in base {
+        if n > 6 && tier == Tier::Quick {
+            continue;
+        }
+        for k in [-40i32, -14, -7, 40] {
+            res.push((format!("{name} x2^{k}"), n, d.iter().map(|x| x * 2f64.powi(k)).collect()));
+        }
+    }
     res
 }
 
@@ -802,18 +822,23 @@ pub fn check_failure_reporting(n: usize, data: &[f64], tol: Option<f64>, acc: &m
                     } else if let (Some(iv), Some(m)) = (QMat::from_f64(n, &d.inverse), QMat::from_f64(n, data)) {
                         acc.inc("stability_distance_recomputed");
                         let dist = l21_exact(&iv, &m);
-                        // the implementation evaluates the distance in f64: allow the rounding of that evaluation
-                        let mut smax = 0.0f64;
-                        for i in 0..n {
-                            for j in 0..n {
-                                let mut s = 0.0;
+                        // the implementation evaluates the distance in f64: allow twice the rigorous first-order bound of that
+                        // evaluation, (n+2) u (|inv| |M| + I) entrywise, aggregated in the L21 norm
+                        let u = 2f64.powi(-53);
+                        let mut bound = 0.0f64;
+                        for j in 0..n {
+                            let mut col = 0.0f64;
+                            for i in 0..n {
+                                let mut sabs = if i == j { 1.0 } else { 0.0 };
                                 for k in 0..n {
-                                    s += (d.inverse[i * n + k] * data[k * n + j]).abs();
+                                    sabs += (d.inverse[i * n + k] * data[k * n + j]).abs();
                                 }
-                                smax = smax.max(s);
+                                let e = (n as f64 + 2.0) * u * sabs;
+                                col += e * e;
                             }
+                            bound += col.sqrt();
                         }
-                        let slack = 2f64.powi(-44) * (n * n) as f64 * (smax + 1.0);
+                        let slack = 2.0 * bound + 8.0 * u * dist;
                         let near = dist <= t + slack || (dist - t).abs() <= 1e-12 * t.abs().max(dist);
                         if dist > t && !near {
                             acc.violate(
@@ -884,6 +909,39 @@ pub fn run_c16a(ctx: &Ctx, acc_out: &mut Acc) {
                     check_failure_reporting(4, d, tol, acc, class);
                 }
             });
+        }
+        if part == 1 {
+            // ill-conditioned but positive definite matrices x a ladder of tolerances around the size of the residual:
+            // the only place where a test that looks at the wrong residual can be told apart from rounding noise
+            // (exact distance above the rigorous evaluation bound)
+            let mut ill: Vec<(usize, Vec<f64>)> = vec![];
+            for n in 5..=8usize {
+                let mut h = vec![0.0; n * n];
+                for i in 0..n {
+                    for j in 0..n {
+                        h[i * n + j] = 1.0 / (i + j + 1) as f64;
+                    }
+                }
+                ill.push((n, h.clone()));
+                ill.push((n, h.iter().map(|x| x * 2f64.powi(-20)).collect()));
+                let mut pas = vec![0.0; n * n];
+                for i in 0..n {
+                    for j in 0..n {
+                        pas[i * n + j] = if i == 0 || j == 0 { 1.0 } else { pas[(i - 1) * n + j] + pas[i * n + j - 1] };
+                    }
+                }
+                ill.push((n, pas));
+            }
+            for c in [1e6, 1e8, 1e10, 1e11] {
+                ill.push((2, vec![c + 1.0, c, c, c + 1.25]));
+                ill.push((3, vec![c + 1.0, c, c, c, c + 1.25, c, c, c, c + 1.5]));
+            }
+            for (n, d) in ill {
+                acc.hist("class", "ill-conditioned-definite");
+                for e in 3..=16 {
+                    check_failure_reporting(n, &d, Some(10f64.powi(-e)), acc, "ill-conditioned");
+                }
+            }
         }
         if part == 0 {
             // named witnesses of the design (always included)
@@ -1339,4 +1397,53 @@ pub fn run_c16(ctx: &Ctx) -> i32 {
         extra: Default::default(),
     };
     finish(ctx, &acc, fin)
+}
+
+
+/// diagnostic: exact L21 distance of the returned inverse, rigorous rounding bound of its f64 evaluation, verdicts per tolerance
+pub fn probe_stability() {
+    let mut mats: Vec<(String, usize, Vec<f64>)> = vec![];
+    for n in 3..=8usize {
+        let mut d = vec![0.0; n * n];
+        for i in 0..n {
+            for j in 0..n {
+                d[i * n + j] = 1.0 / (i + j + 1) as f64;
+            }
+        }
+        mats.push((format!("hilbert{n}"), n, d));
+    }
+    for c in [1e3, 1e6, 1e8, 1e10] {
+        mats.push((format!("sunrise c={c:e}"), 2, vec![c + 1.0, c, c, c + 1.25]));
+    }
+    for (name, n, d) in mats {
+        let m = QMat::from_f64(n, &d).unwrap();
+        if let DecompObs::Ok(dec) = call_decompose(n, &d, None) {
+            let iv = match QMat::from_f64(n, &dec.inverse) {
+                Some(x) => x,
+                None => continue,
+            };
+            let dist = l21_exact(&iv, &m);
+            // rigorous first-order bound of the f64 evaluation of l21(inverse*M - I)
+            let u = 2f64.powi(-53);
+            let mut b = 0.0;
+            for j in 0..n {
+                let mut col = 0.0;
+                for i in 0..n {
+                    let mut sabs = if i == j { 1.0 } else { 0.0 };
+                    for k in 0..n {
+                        sabs += (dec.inverse[i * n + k] * d[k * n + j]).abs();
+                    }
+                    let e = (n as f64 + 2.0) * u * sabs;
+                    col += e * e;
+                }
+                b += col.sqrt();
+            }
+            let mut verdicts = vec![];
+            for t in [1e-15, 1e-13, 1e-11, 1e-9, 1e-7, 1e-5, 1e-3] {
+                verdicts.push(format!("{t:e}:{}", match call_decompose(n, &d, Some(t)) { DecompObs::Ok(_) => "Ok", DecompObs::Unstable => "Unst", _ => "?" }));
+            }
+            let cond = m.cond1().map(|c| q_to_f64(&c)).unwrap_or(f64::NAN);
+            eprintln!("{name}: cond {cond:e} exact dist {dist:e} rigorous bound {b:e}  {}", verdicts.join(" "));
+        }
+    }
 }
